@@ -6,7 +6,8 @@ use std::collections::hash_map::{Drain, Entry, HashMap};
 pub(crate) struct ChannelSlots<T> {
     slots: HashMap<u16, T>,
     freed_channel_ids: IndexSet<u16>,
-    next_channel_id: u16,
+    // u32 so that counting past channel_max = 65535 cannot overflow
+    next_channel_id: u32,
     channel_max: u16,
 }
 
@@ -82,8 +83,8 @@ impl<T> ChannelSlots<T> {
         // First try to grab the next available channel ID we're aware of; this
         // could fail if a user requested a channel ID greater than the ones we've
         // handed out from within this function, so keep looking.
-        while self.next_channel_id <= self.channel_max {
-            let channel_id = self.next_channel_id;
+        while self.next_channel_id <= u32::from(self.channel_max) {
+            let channel_id = self.next_channel_id as u16;
             self.next_channel_id += 1;
             match self.slots.entry(channel_id) {
                 Entry::Occupied(_) => continue,
